@@ -80,7 +80,8 @@ SUITES = {
         "quick": [("km", ["pan_raw_replace_entry_with__s8_4a", "pan_raw_replace_entry_with__s8_8g0", "pan_raw_replace_entry_with__s8_8g4",
                           "pan_replace_entry_with__s8_8g0", "pan_retain__s8_4a", "pan_retain__s8_8g0", "pan_drain_filter__s8_4a_m0111_at3",
                           "pan_drain_filter__s8_8g0_m0110_at3", "pan_or_insert_with__u4f", "pan_or_insert_with__s8_4a", "pan_and_modify__s8_8g0",
-                          "pan_hash_in_insert__s8_4a_at1", "pan_hash_in_insert__s8_8g4_at1", "pan_hash_in_insert__u4f_at2"])],
+                          "pan_hash_in_insert__s8_4a_at1", "pan_hash_in_insert__s8_8g4_at1", "pan_hash_in_insert__u4f_at2",
+                          "pan_hash_in_reserve__s8_4a_at0", "pan_hash_in_reserve__s8_4a_at1"])],
         "thorough": [("km", ["pan_*"])],
     },
     "C08": {
@@ -93,7 +94,7 @@ SUITES = {
     },
     "C09": {
         "quick": [("km", ["rt_retain__s8_4a", "rt_retain__s8_8g0", "rt_retain__s8_e", "rt_retain__u8_3t",
-                          "rt_drain_filter__s8_4a_m0111_end", "rt_drain_filter__s8_4a_m1100_end", "rt_drain_filter__s8_4a_m1010_j1",
+                          "rt_drain_filter__s8_4a_m0111_end", "rt_drain_filter__s8_4a_m1100_end", "rt_drain_filter__s8_4a_m1010_j1", "rt_drain_filter__s8_4a_m1100_j1", "rt_drain_filter__s8_4a_m1111_j0",
                           "rt_drain_filter__s8_4a_m1101_j2f", "rt_drain_filter__s8_8g0_m1110_end", "rt_drain_filter__s8_8g4_m101_j1",
                           "rt_drain_filter__u8_3t_m101_end", "rt_drain_filter__s8_e_m010_end", "se_retain__s8_8g0", "zst_retain__old2_drop", "zst_retain__old2_keep"])],
         "thorough": [("km", ["rt_*", "se_retain__*", "zst_retain__*"])],
@@ -124,26 +125,29 @@ SUITES = {
     },
     "C11": {
         "quick": [("km", ["cl_clone__s8_4a", "cl_clone__s8_8g4", "cl_clone__u8_3t", "cl_clone__s8_e", "cl_clone_from__s8_4a__s8_4a", "cl_clone_from__s8_4a__u0",
-                          "cl_clone_from__u8_3t__s8_8g4", "cl_clone_from__s8_8g4__u4f", "cl_clone_from__u0__s8_4a", "cl_clone_from__s8_e__s8_e", "cl_clone_from__s8_4a__u4f", "dr_clone__s8_8g4"])],
+                          "cl_clone_from__u8_3t__s8_8g4", "cl_clone_from__s8_8g4__u4f", "cl_clone_from__u0__s8_4a", "cl_clone_from__s8_e__s8_e", "cl_clone_from__s8_4a__u4f", "cl_clone_from__s8m0_4a__s8_4a", "cl_clone__s8m0_4a", "dr_clone__s8_8g4"])],
         "thorough": [("km", ["cl_*", "dr_clone__*"])],
     },
     "C13": {
         "quick": [("km", ["se_insert__s8_4a", "se_insert__s8_4one", "se_concrete__ka_old", "se_concrete__ka_main", "se_remove__s8_8g0", "se_remove__s8m0_4a", "se_take__s8_4one", "se_take__s8m0_4a", "se_get__s8_8g4",
                           "se_get_or_insert__u4f", "se_get_or_insert_with__s8_8g4", "se_retain__s8_8g0", "se_clear__s8_8g4", "se_clear__s8m0_4a", "se_extend1__s8_4a",
-                          "se_iter__s8_8g4", "se_drain__s8_4a", "se_union__c_f", "se_union__a_e", "se_intersection__c_a", "se_intersection__a_c",
+                          "se_iter__s8_8g4", "se_drain__s8_4a", "se_union__c_f", "se_union__a_e", "se_union__e_c", "se_union__f_c", "se_intersection__c_a", "se_intersection__a_c",
                           "se_difference__c_a", "se_difference__a_e", "se_symdiff__c_f", "se_ops__e_c", "se_preds__c_a"])],
         "thorough": [("km", ["se_*"])],
     },
     "C14": {
         "quick": [("km", ["eq_same__s8_4a__u", "eq_differ__s8_4a__u", "eq_differ__u__s8_8g0", "eq_transitive", "eq_submap__u8_3t__s8_4a", "eq_submap__u0__s8_4one",
+                          # the read-only API itself, in the layouts where its answer could depend on the phase
+                          "st_lookup__s8m0_4a", "st_lookup__s8_8g0",
                           # == walks one map and looks up in the other: it rests on "no key stored twice" (I3) and
                           # cursor agreement (I2) being kept by the calls that rebuild or splice tables
                           "cl_clone_from__s8_4a__s8_4a", "cl_clone__s8_8g4", "st_raw_replace_with__s8_8g0"])],
-        "thorough": [("km", ["eq_*", "se_preds__*"])],
+        "thorough": [("km", ["eq_*", "se_preds__*", "st_lookup__*"])],
     },
     "C16": {
         "quick": [("km-serde", ["sd_ser_map__s8_4one", "sd_ser_map__s8_8g4", "sd_ser_map__u0", "sd_ser_map__s8_e", "sd_ser_map__u8_3t", "sd_ser_set__s8_8g4",
-                                "sd_de_map__n0", "sd_de_map__n2", "sd_de_set_in_place__s8_4a", "sd_de_set_in_place__s8m0_4a", "sd_de_set_in_place__u0"]),
+                                "sd_de_map__n0", "sd_de_map__n2", "sd_de_set_in_place__s8_4a", "sd_de_set_in_place__s8m0_4a", "sd_de_set_in_place__u0",
+                                "sd_de_set_in_place_empty__s8_4a", "sd_de_set_in_place_empty__u8_3t"]),
                   # deserialize_in_place = clear + reserve + inserts: "replaces the previous contents entirely" rests on clear()
                   ("km", ["se_clear__s8m0_4a", "se_clear__s8_8g4", "st_clear__s8m0_4a"])],
         "thorough": [("km-serde", ["sd_*"])],
